@@ -12,7 +12,7 @@ from .. import gens
 from .. import gens_c03 as g3
 from ..oracles.nlist_ref import Rebin, periodic_distances, distance_rounding, is_small_dyadic
 
-RULE = ("a cell (LAMMPS triangular form, lengths 1-12, tilts up to 1.5 lengths, crystal families; half of them rigidly "
+RULE = ("a cell (LAMMPS triangular form, lengths 1-12, tilts up to 1.5 lengths, or one of the 7 crystal families with a in 2-9; half of them rigidly "
         "rotated, half with non-zero origin), one of the 8 pbc triples, atoms inside the cell placed by one of seven "
         "placement kinds (sparse 1-6 atoms / targeted pair near opposite faces of a periodic axis / atoms on faces, edges, "
         "corners / atoms within 1e-12..1e-6 cutoff of a bin edge / jittered lattice up to 60 atoms / 40-70 atoms "
@@ -30,11 +30,11 @@ ASSUMPTIONS = ["numpy is correct",
                "atoms placed at relative coordinate 0 or 1 count as inside the cell (inside to rounding, 1e-9 relative)",
                "Box and Atoms store the numbers they are given (C01, C06); the cell and positions are read back from "
                "the System as data for the reference computation"]
-LEVEL_TEXT = ("Randomised exploration of cells x pbc x atom placements x cutoffs x storage sizes (about 12 000 systems "
-              "quick, 300 000 thorough); every list is compared entry by entry with an independent O(N^2 * 27) "
+LEVEL_TEXT = ("Randomised exploration of cells x pbc x atom placements x cutoffs x storage sizes (about 20 000 systems "
+              "quick, 480 000 thorough); every list is compared entry by entry with an independent O(N^2 * 27) "
               "reference; sizes / file / API variants are compared with each other.")
 TECHNIQUE = "independent all-pairs 27-image reference; independent re-binning to classify cases and key the ghost-only-bin loss; differential comparison across storage sizes, file round trip and entry points"
-WALL = {'quick': 70, 'thorough': 560}
+WALL = {'quick': 55, 'thorough': 560}
 
 KEY_GHOST = 'C03:lost-pair:adjacent-only-through-ghost-only-bin'
 INSIDE_TOL = 1e-9
@@ -356,20 +356,20 @@ def oracle_api(case):
 
 
 CLAUSES = [
-    Clause('exact', oracle_exact, g3.systems, quick=8000, thorough=220000,
+    Clause('exact', oracle_exact, g3.systems, quick=13000, thorough=360000,
            min_share={'nt': 0.3, 'has_pairs': 0.3, 'ghost_only_bin': 0.35, 'image_pair': 0.15, 'grew_rows': 0.08,
                       'bin_grew': 0.03, 'pair_exactly_at_cutoff': 0.015, 'pbc_mixed': 0.3, 'rotated': 0.18,
                       'tilted': 0.2, 'cutoff_gt_width': 0.05, 'own_image_within_cutoff': 0.02, 'kind_targeted': 0.1,
                       'kind_binedge': 0.07, 'on_face': 0.2},
            desc='every list equals the independent reference {j != i : shortest of the 27 candidates < cutoff}; strictly '
                 'ascending, no self entry, symmetric, coord = length = first column'),
-    Clause('sizes', oracle_sizes, sizes_cases, quick=1800, thorough=40000,
+    Clause('sizes', oracle_sizes, sizes_cases, quick=2600, thorough=60000,
            min_share={'nt': 0.15, 'grew_twice': 0.1, 'size_one': 0.2},
            desc='identical lists for default and drawn initialsize/deltasize (both, and each alone)'),
-    Clause('file', oracle_file, g3.systems, quick=1400, thorough=25000,
+    Clause('file', oracle_file, g3.systems, quick=2200, thorough=40000,
            min_share={'nt': 0.3, 'ragged': 0.15, 'has_empty_row': 0.25, 'two_digit_ids': 0.08},
            desc='dump then NeighborList(model=path | open binary stream | BytesIO | content string): identical lists; second dump identical text'),
-    Clause('api', oracle_api, api_cases, quick=1200, thorough=15000,
+    Clause('api', oracle_api, api_cases, quick=2000, thorough=24000,
            min_share={'nt': 0.28, 'via_function': 0.12, 'via_build': 0.1},
            desc='System.neighborlist, nlist(), NeighborList.build give the same lists as NeighborList(system=, cutoff=); system untouched'),
 ]
